@@ -88,7 +88,7 @@ class Categorical(Distribution):
 
     def sample(self, sample_shape=()):
         if self.probs is None:
-            raise Unsupported("Categorical(logits=)")
+            raise Unsupported("Categorical(logits=).sample")
         if sample_shape not in ((), []):
             raise Unsupported("Categorical.sample with sample_shape")
         p = self.probs
@@ -102,4 +102,9 @@ class Categorical(Distribution):
         return self.probs.log().gather(-1, value.unsqueeze(-1)).squeeze(-1)
 
     def entropy(self):
-        raise Unsupported("Categorical.entropy")
+        # torch: logits are normalised (log_softmax) at construction; entropy = -sum p log p with masked entries contributing 0
+        if self.logits is not None:
+            lp = T.nan_to_num(self.logits.log_softmax(-1), nan=0.0)
+        else:
+            lp = T.nan_to_num((self.probs / self.probs.sum(-1, keepdim=True)).log(), nan=0.0)
+        return -(lp.exp() * lp).sum(-1)
